@@ -111,6 +111,8 @@ type Stats struct {
 	CrossChecked   int            `json:"cross_checked_queries"`
 	CrossDisagree  int            `json:"cross_disagreements"`
 	MaxTermSize    int            `json:"max_assert_term_nodes"`
+	AssertsByModel int            `json:"asserts_refuted_by_path_model"`
+	StoppedEarly   bool           `json:"stopped_after_5_violations,omitempty"`
 }
 
 type Result struct {
@@ -183,6 +185,9 @@ type Engine struct {
 	opaqueCount int
 	InitNotes  []string
 	metaCache  map[*ssa.Function]*fnMetaT
+	pcVars     map[int]bool
+	probeHits  int
+	synUnsat   int
 }
 
 type allowRec struct {
@@ -239,6 +244,58 @@ func (e *Engine) addPC(c *Term) {
 		return
 	}
 	e.pc = append(e.pc, c)
+	for _, v := range varsOf(c) {
+		e.pcVars[v.id] = true
+	}
+}
+
+var varsCache = map[int][]*Term{}
+
+// varsOf returns the variables of t (cached per term).
+func varsOf(t *Term) []*Term {
+	if t.Op == OpConst {
+		return nil
+	}
+	if vs, ok := varsCache[t.id]; ok {
+		return vs
+	}
+	m := map[int]*Term{}
+	t.Vars(m)
+	vs := make([]*Term, 0, len(m))
+	for _, v := range m {
+		vs = append(vs, v)
+	}
+	sort.Slice(vs, func(i, j int) bool { return vs[i].id < vs[j].id })
+	varsCache[t.id] = vs
+	return vs
+}
+
+var probeValues = []uint64{1, 2, 3, 0xff, 0x80, 0x7f, 0x41, 0x30, 0x0a, 0xffffffffffffffff}
+
+// probe tries to satisfy c by changing only variables that do not occur in the
+// path condition (any value of those keeps the path condition satisfied).
+func (e *Engine) probe(c *Term) *Model {
+	vs := varsOf(c)
+	var free []*Term
+	for _, v := range vs {
+		if !e.pcVars[v.id] {
+			free = append(free, v)
+		}
+	}
+	if len(free) == 0 || len(free) > 6 {
+		return nil
+	}
+	for _, v := range free {
+		for _, pv := range probeValues {
+			m := e.model.Clone()
+			m.Set(v, pv)
+			if x, ok := m.Eval(c); ok && x == 1 {
+				e.probeHits++
+				return m
+			}
+		}
+	}
+	return nil
 }
 
 func (e *Engine) markInconclusive(msg string) {
@@ -256,6 +313,26 @@ func (e *Engine) markInconclusive(msg string) {
 func (e *Engine) check(extra *Term) (SatResult, *Model) {
 	if e.opts.Concrete || e.solver == nil {
 		panic(pathEnd{kind: endUnsupported, msg: "symbolic condition in concrete mode: " + extra.String()})
+	}
+	if extra != nil {
+		// syntactic contradiction with the path condition
+		neg := Not(extra)
+		for _, c := range e.pc {
+			if c == neg {
+				e.synUnsat++
+				return Unsat, nil
+			}
+		}
+	}
+	if e.solver.dead {
+		e.solver.Close()
+		ns, err := NewSolver(e.opts.Solver, e.opts.TimeoutMS)
+		if err != nil {
+			e.markInconclusive("cannot restart solver: " + err.Error())
+			return Unknown, nil
+		}
+		ns.Queries, ns.Seconds, ns.NUnknown, ns.MaxQuery = e.solver.Queries, e.solver.Seconds, e.solver.NUnknown, e.solver.MaxQuery
+		e.solver = ns
 	}
 	r, mv, err := e.solver.Check(e.pc, extra, e.vars)
 	if err != nil {
@@ -328,7 +405,13 @@ func (e *Engine) branch(c *Term) bool {
 	if side {
 		other = Not(c)
 	}
-	r, m := e.check(other)
+	var r SatResult
+	var m *Model
+	if pm := e.probe(other); pm != nil {
+		r, m = Sat, pm
+	} else {
+		r, m = e.check(other)
+	}
 	d := Decision{Kind: decBranch, Val: b2u(side)}
 	switch r {
 	case Sat:
@@ -453,6 +536,11 @@ func (e *Engine) assume(c *Term) {
 		e.addPC(c)
 		return
 	}
+	if pm := e.probe(c); pm != nil {
+		e.model = pm
+		e.addPC(c)
+		return
+	}
 	r, m := e.check(c)
 	switch r {
 	case Sat:
@@ -533,8 +621,17 @@ func (e *Engine) assert(c *Term, msg string, knownID string, guard *Term) {
 		e.res.Stats.MaxTermSize = sz
 	}
 	neg := Not(c)
-	r, m := e.check(neg)
-	if len(e.opts.CrossSolvers) > 0 && r != Unknown {
+	var r SatResult
+	var m *Model
+	// the path's witness model satisfies the path condition: if it already
+	// falsifies the assertion it is a counterexample and no query is needed
+	if mv, ok := e.model.Eval(c); ok && mv == 0 && e.solver != nil {
+		r, m = Sat, e.model
+		e.res.Stats.AssertsByModel++
+	} else {
+		r, m = e.check(neg)
+	}
+	if len(e.opts.CrossSolvers) > 0 && r != Unknown && m != e.model {
 		e.crossCheck(neg, r)
 	}
 	switch r {
@@ -657,6 +754,10 @@ func (e *Engine) Run(fn *ssa.Function, harness string) *Result {
 			e.markInconclusive(fmt.Sprintf("time budget %.0fs exhausted", e.opts.MaxSeconds))
 			break
 		}
+		if len(res.Violations) >= 5 {
+			res.Stats.StoppedEarly = true
+			break
+		}
 		it := e.work[len(e.work)-1]
 		e.work = e.work[:len(e.work)-1]
 		end := e.runPath(fn, it)
@@ -750,6 +851,7 @@ func (e *Engine) handleEnd(end pathEnd) {
 func (e *Engine) runPath(fn *ssa.Function, it *workItem) (end pathEnd) {
 	e.epoch++
 	e.pc = e.pc[:0]
+	e.pcVars = map[int]bool{}
 	e.model = it.model
 	e.decs = it.decs
 	e.dpos = 0
